@@ -6,7 +6,7 @@ ids = [json.loads(l)["id"] for l in open(os.path.join(HERE, "properties.jsonl"))
 
 T = {
  "C01": ("real client process vs forging reference responder; reference-verifier oracle (runtime monitor)",
-         "Held on the explored executions of the real roughenough-client binary: 28 forgery operators x both protocols x hex/base64 pinned key x plain/json/verbose x -n 1..16, each delivered datagram classified by an independent verifier; a violation is a concrete client run that printed a time / exited 0 for a response the reference rejects. Exploration, not proof: operators and random mutations sample the space of hostile datagrams.",
+         "Held on the explored executions of the real roughenough-client binary: 31 forgery operators (incl. correctly signed but malformed responses) x both protocols x hex (lower/upper/mixed case) / base64 pinned key x plain/json/verbose x -n 1..16, each delivered datagram classified by an independent verifier; a violation is a concrete client run that printed a time / exited 0 for a response the reference rejects. Exploration, not proof: operators and random mutations sample the space of hostile datagrams.",
          "Trusted: reference codec/verifier/responder in harness/src/refimpl (ring Ed25519, sha2 SHA-512), loopback UDP, client observed only through argv/exit status/stdout/stderr."),
  "C02": ("stepped in-process Server; every emitted datagram checked by an independent spec-derived verifier (runtime monitor)",
          "Every datagram a real Server emitted on the explored histories (every batch_size 1..=64, bursts below/at/above it, mixed protocols, request sizes 1024..=1500, long runs on one server) verified under the reference verifier (own key derivation from the seed, 32-byte truncated hash at every IETF node, leaf over the whole packet, NONC echo, INDX/PATH consistency, VER/VERS); fault injection: failing share within 6 sigma of p over >= 2000 replies. Exploration over seeds/histories.",
@@ -36,34 +36,34 @@ T = {
          "For every explored seed the announced public key equalled ring's RFC 8032 key, SRV equalled SHA-512(0xff||pk)[0..32], construction was deterministic; every CERT observed (API and from replies of both protocols, across restarts and concurrent instances) verified under that key with its own protocol's context only and its window contained the midpoint. Exploration over seeds.",
          "Trusted: ring Ed25519 and sha2; restarts are modelled by dropping and rebuilding the Server in-process (the real binary is restarted in C15/C19 runs)."),
  "C11": ("make_srep over a clock grid + running in-process Server bracketed by harness clock readings (runtime monitor)",
-         "MIDP equalled floor(clock) in microseconds (classic) / seconds (IETF) and RADI 5 s in the same unit for every explored clock value (72 boundary points, random instants to year 9999); every reply from a running server had MIDP within the harness's [before, after] readings. Exploration.",
-         "Trusted: one host clock; a monotonic-vs-wall discrepancy > 50 ms makes a bracket inconclusive."),
+         "MIDP equalled floor(clock) in microseconds (classic) / seconds (IETF) and RADI 5 s in the same unit for every explored clock value (72 boundary points, random instants to year 9999) under four process time zones; every reply from a running server had MIDP within the harness's [before, after] readings, also while the real server's wall clock was stepped by +-1 h, +400 d, -30 d through an LD_PRELOAD shim. Exploration.",
+         "Trusted: one host clock; a monotonic-vs-wall discrepancy > 50 ms makes a bracket inconclusive; the clock shim (harness/c/clockshim.c) adds a whole-second offset to CLOCK_REALTIME only."),
  "C12": ("stepped in-process Server; exhaustive version lists x SRV modes against the two implications of the statement (runtime monitor)",
          "Over all version lists in scope x SRV absent/correct/wrong and every single-bit SRV corruption: answered only with draft-13 listed and a matching/absent SRV, always answered when draft-13 is among the first four; every reply carried VER=draft-13 and a well-formed VERS inside the signed part. Exhaustive in scope.",
          "Trusted: reference request builder/verifier; lists with draft-13 only beyond position 4 are unconstrained by the statement."),
  "C13": ("MsgSigner/MsgVerifier vs ring and ed25519-dalek called directly, chunkings and message sequences, all single-bit corruptions (runtime differential monitor)",
-         "Every explored signature (lengths 0..=4096, six chunkings, sequences up to 32 messages on one signer) equalled the one-shot signature of the concatenation under two independent implementations; the verifier agreed with direct verification on valid triples and on every single-bit flip of message, signature and key. Exploration over seeds/messages; exhaustive over bit positions per triple.",
+         "Every explored signature (lengths 0..=4096, six chunkings, sequences up to 32 messages on one signer) equalled the one-shot signature of the concatenation under two independent implementations; the verifier agreed with direct verification on valid triples and on every single-bit flip of message, signature and key; non-canonical (R, S+L) signatures, small-order and undecodable keys are judged by ring and a pure-Python RFC 8032 reference, not by the dalek build under test; a child process with a failing allocator never printed a wrong signature. Exploration over seeds/messages; exhaustive over bit positions per triple.",
          "Trusted: ring and ed25519-dalek one-shot APIs; a verifier panic is counted as 'does not accept'."),
  "C14": ("EnvelopeEncryption with harness KMS providers; fault enumeration over every blob position, truncation, extension and provider fault",
-         "For every explored blob (plaintexts 32..=64 bytes, wrapped-key lengths 16..=1024 with a provider that really hides the key): round trip returned the seed; every single-byte/bit modification at every position, every truncation, extensions 1..=64 and every provider fault yielded Err, never a plaintext or panic; the blob contained neither seed nor data key. Fault enumeration per blob, sampled over blobs.",
+         "For every explored blob (plaintexts 32..=64 bytes, wrapped-key lengths 16..=1024 with a provider that really hides the key): round trip returned the seed; every single-byte/bit modification at every position (all 255 other values for the length-field bytes), every truncation, extensions 1..=64 and every provider fault yielded Err, never a plaintext or panic; the blob contained neither seed nor data key. Fault enumeration per blob, sampled over blobs.",
          "Trusted: ring AES-GCM; harness providers are faithful KMS stand-ins."),
  "C15": ("real server process per configuration observed from outside: /proc thread names, probe replies, TCP health replies, stderr, liveness (runtime monitor)",
-         "Every explored start of the real server binary (example.cfg as shipped; a covering sample in quick / the full documented grid in thorough; file and ENV sources) became ready, showed all worker-N threads, answered probes from every worker (distinct per-worker delegated keys) with verifying replies, answered sequential and burst health-check connections with HTTP 200 while UDP service continued, printed no panic, and stayed alive for the 3 s observation window. Exploration over configurations; 'stays alive' is decided over the window only.",
+         "Every explored start of the real server binary (example.cfg as shipped; a covering sample in quick / the full documented grid in thorough; file and ENV sources) became ready, showed all worker-N threads, answered probes from every worker (distinct per-worker delegated keys) with verifying replies, answered sequential and burst health-check connections with HTTP 200 while UDP service continued (also right after a burst queued while the process was stopped, with a junk-only first batch and reset connections), also when pinned to fewer CPUs than workers, printed no panic, and stayed alive for the 3 s observation window. Exploration over configurations; 'stays alive' is decided over the window only.",
          "Trusted: per-worker identity = distinct DELE.PUBK among classic replies; readiness = first verifying reply within 10 s; port collisions with foreign processes are inconclusive."),
  "C16": ("probe child process calling the real make_config+is_valid_config, confirmed by starting the real server (runtime monitor against the documented option table)",
-         "For every documented key x boundary value x source: in-range values were reported unchanged by the getters through both sources; out-of-range values, missing required keys, unknown keys and malformed seeds never led to a serving server. Bounded grid, exhaustive over it; thorough adds random in-range combinations.",
+         "For every documented key x boundary value x source: in-range values were reported unchanged by the getters through both sources; out-of-range values, missing required keys, unknown keys, empty values and malformed seeds never led to a serving server; spot checks on the running binary (worker threads, first-batch size, failing share at fault_percentage 1/25/49/50, written health port already taken) agreed with the written values. Bounded grid, exhaustive over it; thorough adds random in-range combinations.",
          "Trusted: the option table transcribed from README.md / config/mod.rs docs; a start that dies is a refusal."),
  "C18": ("real multi-worker server under concurrent closed-loop reference clients; offline exactly-once check of the client-side history; TSan build in thorough (runtime monitor + race detector)",
-         "In every explored round each request got exactly one reply verifying for that request under the single long-term key, no late second reply, no worker died, no panic; across rounds replies came from up to 16 distinct workers and thousands of distinct batch compositions. Schedules and SO_REUSEPORT placement are sampled and perturbed (client counts, CPU pinning, think times), not enumerated.",
+         "In every explored round each request got exactly one reply verifying for that request under the single long-term key, no late second reply, no worker died, no panic, health-check clients polling during the load were answered, open-loop bursts (server stopped while they queue, optionally behind a junk-only batch) were answered completely; across rounds replies came from up to 16 distinct workers and thousands of distinct batch compositions. Schedules and SO_REUSEPORT placement are sampled and perturbed (client counts, CPU pinning, think times), not enumerated.",
          "Trusted: 5 s reply bound (a missing reply with a moved kernel drop counter is inconclusive); reference verifier."),
  "C19": ("real server + signals swept over delivery instants and load phases; exit status/time, stderr and pre-exit replies observed (fault enumeration over signal instants; TSan build in thorough)",
-         "For every explored (signal, workers, client_stats, phase, delay) the process exited with status 0 within 10 s (observed maxima in evidence), printed no panic, and every reply received before exit verified. Instants are swept 0-300 ms in random microsecond steps; 3-10 s exits are recorded as slow (inconclusive).",
+         "For every explored (signal, workers, client_stats, phase, delay) - phases idle, closed-loop, flood of four compositions, half a minute idle, descriptor limit reached with health connections pending, 2.4 M-address per-client table persisted - the process exited with status 0 within 10 s (observed maxima in evidence), printed no panic, and every reply received before exit verified. Instants are swept 0-300 ms in random microsecond steps; 3-10 s exits are recorded as slow (inconclusive).",
          "Trusted: 10 s bound as the reading of 'a few seconds'; signals delivered with kill(2) to the process."),
  "C17": ("PerClientStats/AggregatedStats/Reporter vs reference counter model; bounded-exhaustive op sequences, worker splits, and in-process Server recorder read via hook (runtime model monitor)",
          "Each event was reflected exactly once (own counter or overflow) and tracked addresses never exceeded the limit on every sequence in scope; aggregated == per-client totals without overflow; Reporter merge preserved all per-address sums (hook and decoded CSV.zst); server recorder totals equalled datagrams sent/received by the harness at every quiescent point. Exhaustive in small scope, sampled beyond.",
          "Trusted: hooks verif_with_limit / verif_stats / verif_merged are read-only; queue sized so force_push never evicts (eviction is by design lossy)."),
  "C20": ("needle search over every emitted datagram and captured log record (in-process, Trace) and over real-server stdout/stderr",
-         "Neither the seed nor the clamped private scalar appeared in raw/hex/HEX/base64/base64url/half/Debug-list form in any datagram, log record or process output on the explored seeds, traffic mixes and configuration sources (including failing start-ups). Exploration over seeds.",
+         "Neither the seed nor the clamped private scalar appeared in raw/hex/HEX/base64/base64url/half/Debug-list form in any datagram, log record or process output on the explored seeds, traffic mixes and configuration sources (including 21 kinds of failing start-up and the configuration loaders run under a Trace-level capturing logger). Exploration over seeds.",
          "Trusted: needle encodings listed in the evidence cover the practical ways a secret is printed; random seeds only."),
 }
 LEVEL = {"C14": "fault_enumeration", "C19": "fault_enumeration"}
